@@ -217,24 +217,24 @@ func vfExec(w *vfWorld, r *Router, c vfCmd) vfCmdResult {
 	return w.runCmd(func() error {
 		switch c.Op {
 		case "deploy":
-			return r.DeployService(c.Svc, c.Targets, c.Opt.serviceOptions(c.Spec, c.Fault), c.Opt.targetOptions(), vfDur(c.DeployMs, 3000), vfDur(c.DrainMs, 1000))
+			return vfDeploy(r, c.Svc, c.Targets, c.Opt.serviceOptions(c.Spec, c.Fault), c.Opt.targetOptions(), vfDur(c.DeployMs, 3000), vfDur(c.DrainMs, 1000))
 		case "remove":
-			return r.RemoveService(c.Svc)
+			return vfRemove(r, c.Svc)
 		case "pause":
 			if c.MaxPauseMs < 0 {
-				return r.PauseService(c.Svc, vfDur(c.DrainMs, 1000), 0)
+				return vfPause(r, c.Svc, vfDur(c.DrainMs, 1000), 0)
 			}
-			return r.PauseService(c.Svc, vfDur(c.DrainMs, 1000), vfDur(c.MaxPauseMs, 30000))
+			return vfPause(r, c.Svc, vfDur(c.DrainMs, 1000), vfDur(c.MaxPauseMs, 30000))
 		case "stop":
-			return r.StopService(c.Svc, vfDur(c.DrainMs, 1000), c.Msg)
+			return vfStop(r, c.Svc, vfDur(c.DrainMs, 1000), c.Msg)
 		case "resume":
-			return r.ResumeService(c.Svc)
+			return vfResume(r, c.Svc)
 		case "rollout-deploy":
-			return r.SetRolloutTargets(c.Svc, c.Targets, vfDur(c.DeployMs, 3000), vfDur(c.DrainMs, 1000))
+			return vfRolloutDeploy(r, c.Svc, c.Targets, vfDur(c.DeployMs, 3000), vfDur(c.DrainMs, 1000))
 		case "rollout-set":
-			return r.SetRolloutSplit(c.Svc, c.Pct, c.Allow)
+			return vfRolloutSet(r, c.Svc, c.Pct, c.Allow)
 		case "rollout-stop":
-			return r.StopRollout(c.Svc)
+			return vfRolloutStop(r, c.Svc)
 		}
 		panic("unknown op " + c.Op)
 	})
@@ -514,7 +514,7 @@ func (m *vfModel) list() map[string]vfListRow {
 
 func vfRealList(r *Router) map[string]vfListRow {
 	out := map[string]vfListRow{}
-	for n, d := range r.ListActiveServices() {
+	for n, d := range vfList(r) {
 		out[n] = vfListRow{Host: d.Host, Path: d.Path, Target: d.Target, State: d.State, TLS: d.TLS}
 	}
 	return out
